@@ -95,6 +95,15 @@ pub(crate) fn override_resolved(
     list
 }
 
+/// What the client is told: the class of the result and, for a failure, the status code and
+/// extra headers `http_downstream` answers the request with
+#[derive(Debug, Clone)]
+pub struct ConnectResult {
+    pub class: ConnectClass,
+    pub status: Option<u16>,
+    pub headers: Vec<(String, String)>,
+}
+
 /// A `TcpForwarder` factory with fixed policy flags
 pub struct Egress {
     context: Arc<core::Context>,
@@ -120,7 +129,7 @@ impl Egress {
     /// One `TcpForwarder::connect` call. `req` becomes the log id (`REQ=<req>`) carried by the
     /// hook events. On success `token` is written through the returned sink and flushed, so a
     /// listener can tell which request reached it. The whole call is capped by `cap`.
-    pub async fn connect(&self, req: u64, destination: Destination, token: &[u8], cap: Duration) -> ConnectClass {
+    pub async fn connect(&self, req: u64, destination: Destination, token: &[u8], cap: Duration) -> ConnectResult {
         let connector: Box<dyn TcpConnector> = Box::new(TcpForwarder::new(self.context.clone()));
         let id = log_utils::IdChain::from(log_utils::IdItem::new("REQ={}", req));
         let meta = forwarder::TcpConnectionMeta {
@@ -134,29 +143,51 @@ impl Egress {
             user_agent: None,
         };
         let token = Bytes::copy_from_slice(token);
+        let hostname = match &meta.destination {
+            TcpDestination::Address(a) => a.ip().to_string(),
+            TcpDestination::HostName(h) => h.0.clone(),
+        };
         let fut = async move {
             match connector.connect(id, meta).await {
                 Ok((source, mut sink)) => {
                     let sent = sink.write_all(token).await.is_ok() && sink.flush().await.is_ok();
                     drop(sink);
                     drop(source);
-                    ConnectClass::Established { token_sent: sent }
+                    ConnectResult {
+                        class: ConnectClass::Established { token_sent: sent },
+                        status: None,
+                        headers: Vec::new(),
+                    }
                 }
-                Err(tunnel::ConnectionError::DnsLoopback) => ConnectClass::DnsLoopback,
-                Err(tunnel::ConnectionError::DnsNonroutable) => ConnectClass::DnsNonroutable,
-                Err(tunnel::ConnectionError::Io(e)) => ConnectClass::Io {
-                    kind: format!("{:?}", e.kind()),
-                    text: e.to_string(),
-                },
-                Err(tunnel::ConnectionError::Timeout) => ConnectClass::Timeout,
-                Err(tunnel::ConnectionError::HostUnreachable) => ConnectClass::HostUnreachable,
-                Err(tunnel::ConnectionError::Authentication(_)) => ConnectClass::Authentication,
-                Err(tunnel::ConnectionError::Other(x)) => ConnectClass::Other(x),
+                Err(e) => {
+                    let (status, headers) = crate::http_downstream::verif_error_response(&e, &hostname);
+                    let class = match e {
+                        tunnel::ConnectionError::DnsLoopback => ConnectClass::DnsLoopback,
+                        tunnel::ConnectionError::DnsNonroutable => ConnectClass::DnsNonroutable,
+                        tunnel::ConnectionError::Io(e) => ConnectClass::Io {
+                            kind: format!("{:?}", e.kind()),
+                            text: e.to_string(),
+                        },
+                        tunnel::ConnectionError::Timeout => ConnectClass::Timeout,
+                        tunnel::ConnectionError::HostUnreachable => ConnectClass::HostUnreachable,
+                        tunnel::ConnectionError::Authentication(_) => ConnectClass::Authentication,
+                        tunnel::ConnectionError::Other(x) => ConnectClass::Other(x),
+                    };
+                    ConnectResult {
+                        class,
+                        status: Some(status),
+                        headers,
+                    }
+                }
             }
         };
         match tokio::time::timeout(cap, fut).await {
             Ok(c) => c,
-            Err(_) => ConnectClass::Capped,
+            Err(_) => ConnectResult {
+                class: ConnectClass::Capped,
+                status: None,
+                headers: Vec::new(),
+            },
         }
     }
 }
